@@ -68,7 +68,8 @@ def check_case(rng, impl, quick):
     import blackbird
     from blackbird.utils import TemplateError, match_template
     pars, ops = gen_template(rng)
-    ttext = script(ops)
+    tver = rng.choice(["1.0", "1.0", "1.1", "1.10", "2.1", "0.5"])
+    ttext = script(ops, header="name prog\nversion %s\n" % tver)
     try:
         t = impl.loads(ttext)
     except Exception:  # noqa: BLE001
@@ -81,7 +82,7 @@ def check_case(rng, impl, quick):
     # the instantiated program as a script, operations reordered preserving the order on every mode
     perm = shuffle_preserving(rng, ops)
     iops = [inst.operations[i] for i in perm]
-    lines = ["name prog", "version 1.0", ""]
+    lines = ["name prog", "version %s" % tver, ""]
     for o in iops:
         a = ", ".join(repr(float(x)) if not isinstance(x, (int,)) or isinstance(x, bool) else str(x) for x in o.get("args", []))
         lines.append("%s%s | [%s]" % (o["op"], "(%s)" % a if "args" in o and o["args"] else "", ", ".join(str(int(m)) for m in o["modes"])))
@@ -137,7 +138,7 @@ def check_case(rng, impl, quick):
     edits = []
     if iops:
         k = rng.randrange(len(iops))
-        def render(ops2, version="1.0", target=None):
+        def render(ops2, version=tver, target=None):
             ls = ["name prog", "version %s" % version] + (["target %s" % target] if target else []) + [""]
             for o in ops2:
                 a = ", ".join(repr(float(x)) if not isinstance(x, int) or isinstance(x, bool) else str(x) for x in o.get("args", []))
@@ -156,7 +157,10 @@ def check_case(rng, impl, quick):
             ms = list(e6[j]["modes"])
             e6[j]["modes"] = ms[1:] + ms[:1]
             edits.append(("mode order inside a gate", render(e6)))
-        edits.append(("version", render(iops, version="1.1")))
+        # another version: also one whose text is numerically equal as a float (1.1 / 1.10 are different versions)
+        other = {"1.0": ["1.1", "2.0"], "1.1": ["1.10", "1.0"], "1.10": ["1.1", "1.11"], "2.1": ["2.10", "2.2"], "0.5": ["0.6", "1.5"]}[tver]
+        for ov in other:
+            edits.append(("version", render(iops, version=ov)))
         edits.append(("target", render(iops, target="fock")))
         # swap two differently-labelled operations that share a mode
         for i in range(len(iops) - 1):
